@@ -214,6 +214,7 @@ class Generator:
 		self.max_array = max_array
 		self.long_arrays = long_arrays
 		self.stats = {}
+		self.toggles = {}
 
 	def note(self, key):
 		self.stats[key] = self.stats.get(key, 0) + 1
@@ -279,7 +280,10 @@ class Generator:
 			condition_field = by_name[conditional.linked_field_name]
 			if kind(field.field_type) in ('FixedSizeInteger', 'Array') or is_computed(condition_field) or bound_field(model, condition_field):
 				# presence is the member's own truthiness (or a computed/bound size derived from it)
-				present = self.rng.randrange(2) == 1
+				# both arms of every conditional, systematically: alternate per (struct, member) instead of tossing a coin
+				toggle_key = (model.name, field.name)
+				self.toggles[toggle_key] = not self.toggles.get(toggle_key, False)
+				present = self.toggles[toggle_key]
 				self.note(f'cond:{model.name}.{field.name}:{"present" if present else "absent"}')
 				members[field.name] = self.member(model, field, by_name, depth, nonempty=True) if present else None
 			else:
